@@ -508,3 +508,50 @@ Proof.
     as (c' & E & _ & _ & _ & _ & W).
   destruct (W Hr Ha Hw) as [W1 W2]. exists c'. auto.
 Qed.
+
+(* ====================================================================================================== *)
+(* how such a connection comes about: the accepted upgrade reply that negotiates permessage-deflate takes a fresh connection
+   to the state between two frames with compression enabled -- the inflate tape untouched *)
+Section HandshakeZ.
+  Variable cf : cfg.
+  Variable app : strategy.
+  Hypothesis app_benign : benign app.
+  Hypothesis no_ping_timeout : zpos (c_ping_timeout cf) = None.
+
+  Lemma zt_deliver c e : k_ztape (fst (deliver app c e)) = k_ztape c.
+  Proof. change (same_zt c (fst (deliver app c e))). inst_zt fr_deliver. Qed.
+  Lemma zt_regular c : k_ztape (fst (regular cf app c)) = k_ztape c.
+  Proof. change (same_zt c (fst (regular cf app c))). inst_zt fr_regular. Qed.
+
+  Lemma handshake_idle_z c reply proto d :
+    k_ps c = fp_init -> k_closed c = false -> k_closing c = false -> k_sent_close_time c = None ->
+    k_frames c = [] -> reply_block reply ->
+    on_response (c_accept cf) (parse_response reply) = HReady proto (Some d) ->
+    exists c', feedf cf app c reply = (c', SOk) /\ idle_z d c' [] (k_ztape c) /\ msg_events (k_tr c') = msg_events (k_tr c) /\
+               k_sock c' = k_sock c.
+  Proof.
+    intros Hps Hcl Hcg Hsc Hfr Hrb Hresp.
+    destruct (pull_reply reply Hrb) as (s' & Hpull & Hab).
+    rewrite feedf_unfold by (rewrite Hps; exact fp_init_ok). unfold feed_body. rewrite Hcl, Hps, Hpull.
+    unfold on_item. rewrite Hresp. unfold feed_yield, in_feed_yield. cbn [on_event].
+    match goal with |- context [deliver app ?x ?e] => set (cr := x); set (ev0 := e) end.
+    destruct (deliver_benign app app_benign cr ev0) as (cd & Ed & (D1&D2&D3&D4&D5&D6&D7&D8) & Md).
+    pose proof (zt_deliver cr ev0) as Zd. rewrite Ed in *. cbn [fst] in Zd.
+    assert (Hscd : k_sent_close_time cd = None) by (rewrite D6; exact Hsc).
+    destruct (regular_quiet cf app app_benign no_ping_timeout cd Hscd) as (R1 & (S1&S2&S3&S4&S5&S6&S7&S8) & R3).
+    pose proof (zt_regular cd) as Zr.
+    destruct (regular cf app cd) as [c2 st2]. cbn [fst snd] in *. subst st2.
+    assert (F6 : k_ps c2 = fp_enable_compression s') by (rewrite S1, D1; reflexivity).
+    assert (Hab2 : at_boundary_z (k_ps c2) false) by (rewrite F6, Hab; reflexivity).
+    assert (Hokc2 : fp_ok (k_ps c2)) by (rewrite Hab2; unfold fp_ok, st_ok; cbn; lia).
+    assert (F1 : k_closed c2 = false) by (rewrite S4, D4; exact Hcl).
+    exists c2. split.
+    { rewrite feedf_unfold by exact Hokc2. unfold feed_body. rewrite F1.
+      change (fp_pull (k_ps c2) []) with (NeedMore (item:=pitem) (err:=perr) (k_ps c2)). cbv beta iota.
+      rewrite set_ps_same. reflexivity. }
+    split.
+    { unfold idle_z. split; [exact F1|]. split; [rewrite S3, D3; exact Hcg|]. split; [rewrite S5, D5; reflexivity|].
+      split; [rewrite S6; exact Hscd|]. split; [rewrite S2, D2; exact Hfr|]. split; [rewrite Zr, Zd; reflexivity|exact Hab2]. }
+    split; [rewrite R3, Md; reflexivity|rewrite S8, D8; reflexivity].
+  Qed.
+End HandshakeZ.
